@@ -23,7 +23,7 @@ def run(ctx):
             f.write(json.dumps(ctx.replay["record"]["g"]) + "\n")
         n = 1
     else:
-        n = vlib.sample_lines(cases_all, cases, 8064 if ctx.quick else 150000, ctx.seed)
+        n = vlib.sample_lines(cases_all, cases, 12000 if ctx.quick else 150000, ctx.seed)
     t1, t2 = ctx.path("partial.ndjson"), ctx.path("random.ndjson")
     ctx.harness("vh-graph", ["partial", "--cases", cases, "--out", t1])
     ctx.harness("vh-graph", ["partial-random", "--out", t2])
@@ -38,4 +38,4 @@ def run(ctx):
     ctx.add_samples(samples)
     ctx.finish(rule="case = (SSA graph, nondeterminism flags, requested outputs, input subset S) enumerated by TLC; distinct by that tuple; non-trivial = S is a proper non-empty subset of the inputs",
                assumptions=["synthetic mixer operators; the non-deterministic operator counts its own executions", "random generators of the ONNX set are checked only for not being frozen (3 runs must not all be equal)"],
-               exhaustive=ctx.quick)
+               exhaustive=False)
